@@ -109,7 +109,7 @@ class GatewayRig:
     def _feed(self, data):
         try:
             self.p.data_received(data)
-        except Exception as e:  # noqa
+        except BaseException as e:  # noqa
             self.out.append({"o": "raised", "exc": type(e).__name__})
 
     def _lose(self, exc):
@@ -123,7 +123,7 @@ class GatewayRig:
                     self.loop.call_soon(self._lose, None)
             else:
                 self.p.connection_lost(ConnectionResetError("gone") if exc else None)
-        except Exception as e:  # noqa - what the event loop would log as an unhandled callback exception
+        except BaseException as e:  # noqa - what the event loop would log as an unhandled callback exception
             self.out.append({"o": "raised", "exc": type(e).__name__})
 
     @staticmethod
